@@ -424,9 +424,41 @@ def main():
         _worker_init(err_prefix)
         results["results"] = [_worker_run(sc) for sc in todo]
     else:
+        # A worker that dies (a crash inside the extension) must not hang the run: with
+        # ProcessPoolExecutor a dead worker breaks the pool; whatever is unfinished is then
+        # re-run one scenario per subprocess so that the crashing scenario is identified.
+        import concurrent.futures as cf
+        import subprocess
+        done = {}
         ctx = multiprocessing.get_context("fork")
-        with ctx.Pool(processes=jobs, initializer=_worker_init, initargs=(err_prefix,)) as pool:
-            results["results"] = pool.map(_worker_run, todo, chunksize=1)
+        try:
+            with cf.ProcessPoolExecutor(max_workers=jobs, mp_context=ctx, initializer=_worker_init, initargs=(err_prefix,)) as ex:
+                futs = {ex.submit(_worker_run, sc): sc["id"] for sc in todo}
+                for f in cf.as_completed(futs):
+                    try:
+                        done[futs[f]] = f.result()
+                    except Exception:
+                        pass
+        except Exception:
+            pass
+        for sc in todo:
+            if sc["id"] in done:
+                continue
+            tmp = "%s.single.%d" % (res_path, sc["id"])
+            try:
+                pr = subprocess.run([sys.executable, os.path.abspath(__file__), scen_path, tmp, "--only-ids", str(sc["id"]), "--inline"],
+                                    stdout=subprocess.DEVNULL, stderr=subprocess.DEVNULL, timeout=300)
+                if pr.returncode == 0 and os.path.exists(tmp):
+                    one = dehex(json.load(open(tmp)))["results"]
+                    done[sc["id"]] = one[0] if one else {"id": sc["id"], "outcome": "driver-error", "message": "no result"}
+                else:
+                    done[sc["id"]] = {"id": sc["id"], "outcome": "crash", "message": "interpreter exited with %d while running this scenario" % pr.returncode}
+            except subprocess.TimeoutExpired:
+                done[sc["id"]] = {"id": sc["id"], "outcome": "driver-error", "message": "single-scenario rerun timed out"}
+            finally:
+                if os.path.exists(tmp):
+                    os.remove(tmp)
+        results["results"] = [done[sc["id"]] for sc in todo]
     if only is None and prop in (None, "C19"):
         for w in doc.get("wrappers", []):
             results["wrappers"].append(run_wrapper(base, w))
